@@ -265,7 +265,8 @@ type caseT struct {
 	// AppVia: how the handler asks for partial validation: 0 Bind(WithPartial()); 1 BindOnly then
 	// Validate(validation.WithPartial(true)); 2 Bind(WithValidationOptions(validation.WithPartial(true)));
 	// 3 Bind(WithPartial(), WithPresence(pm)) with the presence map computed by the handler;
-	// 4 the body is first bound into a map with BindOnly (body and presence are cached for the request), then Bind(WithPartial())
+	// 4 the body is first bound into a map with BindOnly (body and presence are cached for the request), then Bind(WithPartial());
+	// 5 another JSON request is served first (the pooled context comes back), then as 0; Presence() must be nil before the handler binds
 	AppVia int `json:",omitempty"`
 	// Variant: 1 = the options are given to validation.New (base configuration of a fresh Validator), the call
 	// passes none of them; 2 = as 1, and the call overrides a different base WithMaxErrors;
@@ -292,7 +293,14 @@ func secret(r *hx.Rand, n int) string {
 	for len(s) < n {
 		s += "z"
 	}
-	return s[:n]
+	s = s[:n]
+	if n >= 7 && r.Chance(1, 8) {
+		// a character that quoting or JSON encoding escapes (the prefix with the counter stays intact)
+		b := []byte(s)
+		b[n-1] = "\"\\\t'<"[r.Intn(5)]
+		s = string(b)
+	}
+	return s
 }
 
 var tagsFor = map[string][]string{
@@ -683,7 +691,7 @@ func genCase(r *hx.Rand, tier string) caseT {
 	c.Pkg = r.Chance(1, 4)
 	c.ViaApp = c.Mode == 0 && r.Chance(1, 4)
 	if c.ViaApp {
-		c.AppVia = r.Intn(5)
+		c.AppVia = r.Intn(6)
 	}
 	if !c.ViaApp && r.Chance(1, 6) {
 		c.Variant = r.Range(1, 3)
@@ -1180,9 +1188,22 @@ func observe(c *caseT, rt reflect.Type, secrets []string) (o obsT) {
 			req := httptest.NewRequest("PATCH", "/c05", bytes.NewReader(body))
 			req.Header.Set("Content-Type", []string{"application/json", "application/json; charset=utf-8", "application/merge-patch+json",
 				"Application/JSON", "application/merge-patch+json; charset=utf-8"}[len(c.Body)%5])
+			if c.AppVia == 5 {
+				// an earlier request with another body: nothing of it may be left in the context that serves the next one
+				appHandler = func(ac *app.Context) {
+					var prev map[string]any
+					_ = ac.Bind(&prev, app.WithPartial())
+				}
+				decoy := httptest.NewRequest("PATCH", "/c05", strings.NewReader(`{"zz-prev":{"x":1},"name":"zz","user":{"name":"p"},"a":[1]}`))
+				decoy.Header.Set("Content-Type", "application/json")
+				getApp().Router().ServeHTTP(httptest.NewRecorder(), decoy)
+			}
 			ran := false
 			appHandler = func(ac *app.Context) {
 				ran = true
+				if ac.Presence() != nil {
+					o.clobbered = true // presence of an earlier request (nothing has been bound in this one yet)
+				}
 				defer func() {
 					if p := recover(); p != nil {
 						o.kind = "P"
@@ -1287,7 +1308,10 @@ func observe(c *caseT, rt reflect.Type, secrets []string) (o obsT) {
 		text += "\x00" + string(js)
 	}
 	for _, s := range secrets {
-		if strings.Contains(text, s) {
+		// the value as it is, as %q / strconv.Quote render it, and as encoding/json renders it
+		quoted := strings.Trim(strconv.Quote(s), `"`)
+		js, _ := json.Marshal(s)
+		if strings.Contains(text, s) || strings.Contains(text, quoted) || strings.Contains(text, strings.Trim(string(js), `"`)) {
 			o.leak = true
 		}
 	}
@@ -1553,7 +1577,7 @@ func emit(id string, c caseT, st *hx.Stats) string {
 		st.Count("mode_" + []string{"partial", "full", "runall", "interface"}[c.Mode])
 		st.Count("obs_" + o.kind)
 		if c.ViaApp {
-			st.Count("via_app_context_" + []string{"bind_withpartial", "bindonly_then_validate", "bind_validationoption_partial", "bind_withpresence", "second_bind_in_request"}[c.AppVia])
+			st.Count("via_app_context_" + []string{"bind_withpartial", "bindonly_then_validate", "bind_validationoption_partial", "bind_withpresence", "second_bind_in_request", "after_another_request"}[c.AppVia])
 		}
 		if c.Variant != 0 {
 			st.Count("variant_" + []string{"", "base_options", "base_options_overridden", "validate_with_partial_option"}[c.Variant])
